@@ -1,6 +1,7 @@
 # Sizing and claim for C11 (see props/__init__.py)
 SPEC = {
-        "quick": {"rc_cases": 100000, "rc_procs": 14, "enum": True},
+    "variants": {"": [], "uchar": ["-funsigned-char"]},   # the second build variant uses an unsigned plain char (-funsigned-char: the ARM / AArch64 / PowerPC default); in the quick tier it runs a reduced number of generated cases and no enumerators
+        "quick": {"rc_cases": 100000, "rc_procs": 14, "enum": True, "variant_cfg": {"uchar": {"rc_cases": 50000, "rc_procs": 4, "enum": False}}},
         "thorough": {"rc_cases": 250000, "rc_procs": 16, "enum": True},
         "claim": {
             "category": "exploration",
